@@ -1,3 +1,4 @@
 pub mod points;
 pub mod world;
+pub mod bytes;
 pub mod history;
